@@ -8,8 +8,12 @@ pub mod c06;
 pub mod c08;
 pub mod c10;
 pub mod c11;
+pub mod c12;
+pub mod c13;
+pub mod c14;
 pub mod c18;
 pub mod c19;
+pub mod fmt;
 
 pub struct PropDef {
     pub id: &'static str,
@@ -27,6 +31,9 @@ pub fn registry() -> Vec<PropDef> {
         PropDef { id: "C08", run: c08::run, replay: c08::replay },
         PropDef { id: "C10", run: c10::run, replay: c10::replay },
         PropDef { id: "C11", run: c11::run, replay: c11::replay },
+        PropDef { id: "C12", run: c12::run, replay: c12::replay },
+        PropDef { id: "C13", run: c13::run, replay: c13::replay },
+        PropDef { id: "C14", run: c14::run, replay: c14::replay },
         PropDef { id: "C18", run: c18::run, replay: c18::replay },
         PropDef { id: "C19", run: c19::run, replay: c19::replay },
     ]
